@@ -225,23 +225,30 @@ Definition rRe (vn obj field : str) (v : val) : list clause :=
 
 (* in / include, validfn.go:234-284 *)
 Definition SLASH : byte := 47%N.
+(* the option list: text between the first '(' and the last ')' (None: rule-writing error),
+   split on '/' outside quotes, protecting quotes trimmed *)
+Definition in_vals (vl : str) : option str :=
+  match index_byte LPAREN vl, last_index_byte RPAREN vl with
+  | Some lb, Some rb => if Nat.ltb rb lb then None else Some (firstn (rb - (lb + 1)) (skipn (lb + 1) vl))
+  | _, _ => None
+  end.
+Definition in_opts (vl : str) : option (list str) :=
+  option_map (fun iv => map (trim [QUOTE]) (names_split SLASH iv)) (in_vals vl).
+
 Definition in_like (vn obj field : str) (v : val) : list clause :=
-  let key := pk_key vn in let vl := pk_val vn in let cus := pk_msg vn in
+  let key := pk_key vn in let cus := pk_msg vn in
   let is_include := str_eqb key (s2b "include") in
   let err := CField obj field (FRuleErr (if is_include then s2b "include" else s2b "in")) in
-  match index_byte LPAREN vl, last_index_byte RPAREN vl with
-  | Some lb, Some rb =>
-    if Nat.ltb rb lb then [err] else
-    let in_vals := firstn (rb - (lb + 1)) (skipn (lb + 1) vl) in
+  match in_opts (pk_val vn) with
+  | None => [err]
+  | Some opts =>
     let go (tv : str) :=
-      let opts := map (trim [QUOTE]) (names_split SLASH in_vals) in
       let hit := existsb (fun o => if is_include then contains tv o else str_eqb tv o) opts in
       if hit then [] else [CValid obj field tv (body_of cus key)] in
     match v with
     | VStr s => go s
     | _ => if is_include then [err] else go (to_str v)
     end
-  | _, _ => [err]
   end.
 
 (* Int / Float *)
@@ -266,7 +273,7 @@ Definition rInts (vn obj field : str) (v : val) : list clause :=
   | VStr s =>
     if forallb (match_string (pats IntRe)) (split s sp) then [] else [CValid obj field s (body_of cus (s2b "ints"))]
   | VSlice _ _ _ _ | VArray _ _ _ =>
-    let strs := map (fun e => to_str (unwrap_iface e)) (elems_of v) in
+    let strs := map to_str (elems_of v) in
     if forallb (match_string (pats IntRe)) strs then []
     else [CValid obj field (s2b "[" ++ join (s2b ", ") strs ++ s2b "]") (body_of cus (s2b "ints"))]
   | _ => if is_num_kind (kind v) false then [] else [CField obj field (FRuleErr (s2b "ints"))]
@@ -284,7 +291,7 @@ Definition rUnique (vn obj field : str) (v : val) : list clause :=
     let ps := split1 COMMA [] s in
     if Nat.eqb (length ps) (length (distinct ps)) then [] else [CValid obj field s (body_of (pk_msg vn) (s2b "unique"))]
   | VSlice _ _ _ _ | VArray _ _ _ =>
-    let strs := map (fun e => to_str (unwrap_iface e)) (elems_of v) in
+    let strs := map to_str (elems_of v) in
     if Nat.eqb (length strs) (length (distinct strs)) then []
     else [CValid obj field (s2b "[" ++ join [COMMA] strs ++ s2b "]") (body_of (pk_msg vn) (s2b "unique"))]
   | _ => [CField obj field (FRuleErr (s2b "unique"))]
